@@ -77,18 +77,21 @@ CHECKS["C01"] = dict(
     text="Theorems about the faithful engine model (resume index, skip-if-present, in-place set_reading): for every leaf indicator whose "
          "_calculate_reading is pure and causal, any split of a stream into append chunks - into an empty or an already calculated "
          "indicator - ends in exactly the store (or exception) of one calculate() over the whole stream (canonical causal semantics, "
-         "proved by induction over the loop for all streams, lengths and chunkings). The two obligations are discharged for HLA, TR, "
-         "OBV and EMA (all periods >= 1, all inputs not reading the own slot). " + ENGINE_TIE +
+         "proved by induction over the loop for all streams, lengths and chunkings), and on a collapsing timeframe the re-collapse "
+         "of calculated buckets followed by new raw candles, then calculate(), gives the batch result on the resampled whole stream. "
+         "The two obligations are discharged for HLA, TR, OBV, EMA, SMA, RMA, WMA, ROC, Counter and every Amorph-wrapped analysis "
+         "function (all periods >= 1, all inputs not reading the own slot). " + ENGINE_TIE +
          "Falsifier: incremental vs batch deep equality over all 27 kinds + Amorph wrappers, base/S/T/H/D timeframes, fill, HA.",
-    note="Proved on the base timeframe for leaf indicators; for the other 23 kinds, composite trees and collapsing timeframes the "
-         "property is decided by correspondence + falsifier (the manager half is C03_recollapse). Axioms: none.",
+    note="Proved for leaf indicators on the base and on collapsing timeframes (without fill/Heikin-Ashi in the composition); for the "
+         "other kinds and composite trees the property is decided by correspondence + falsifier. Axioms: none.",
     technique="Coq proof (canonical-semantics induction over the calculate loop; per-indicator causality lemmas) + vm_compute correspondence + falsifier",
     design="5/C01")
 CHECKS["C02"] = dict(
     text="Theorems (same model and scope as C01): calculate() over ds ++ more extends calculate() over ds (batch causality: no "
-         "look-ahead), and appending to a calculated indicator leaves every existing candle and reading untouched (no repaint). "
+         "look-ahead), appending to a calculated indicator leaves every existing candle and reading untouched (no repaint), and on a "
+         "collapsing timeframe every bucket but the last (open) one keeps its readings when more candles arrive. "
          + ENGINE_TIE + "Falsifier: snapshot(t) minus the open bucket is a prefix of snapshot(t') on live appends, batch-on-prefix vs batch-on-whole.",
-    note="Leaf indicators with discharged obligations (HLA, TR, OBV, EMA) on the base timeframe; other kinds/timeframes by correspondence + falsifier. Axioms: none.",
+    note="Leaf indicators with discharged obligations (see C01); other kinds by correspondence + falsifier. Axioms: none.",
     technique="Coq proof (prefix stability of the canonical semantics) + vm_compute correspondence + falsifier", design="5/C02")
 CHECKS["C04"] = dict(
     text="Theorems over the reals (round-half-even on round_value decimals, Flocq) about the recurrence specifications of SMA/EMA/RMA/WMA: "
@@ -102,10 +105,13 @@ CHECKS["C04"] = dict(
     technique="Coq proof over R with Flocq rounding + two vm_compute correspondences + reference falsifier", design="5/C04")
 CHECKS["C05"] = dict(
     text="Theorems over the reals: the true range dominates high-low and both gap distances and is >= 0, the TR reading is >= the rounded "
-         "high-low, ATR's Wilder step keeps it >= 0. All eleven indicators of the property are tied by the bit-exact engine "
+         "high-low, ATR's Wilder step keeps it >= 0. Theorem about the faithful engine, every numeric instance: the readings of a Counter "
+         "over any stream are the run lengths of its input (candles without input neither extend nor break the run). Theorem (engine, "
+         "reals): the threshold flag is False without a sigma reading and otherwise True exactly when |x[i]-x[i-1]| > multiplier*sigma. "
+         "All eleven indicators of the property are tied by the bit-exact engine "
          "correspondence and compared with independent reference implementations (presence exactly, values within a stated tolerance).",
-    note="Only TR/ATR have theorems; STDEV, BBANDS, KC, Donchian, HL, HLA, Supertrend, STDEVTHRES, Counter are decided by correspondence "
-         "+ reference falsifier. Real-number axioms as for C04.",
+    note="TR, ATR, Counter and the threshold rule have theorems; STDEV (and the sigma the threshold reads), BBANDS, KC, Donchian, HL, HLA, "
+         "Supertrend are decided by correspondence + reference falsifier. Real-number axioms as for C04 (none for the Counter theorem).",
     technique="Coq proof over R + vm_compute correspondence + reference falsifier", design="5/C05")
 CHECKS["C06"] = dict(
     text="Theorems: RSI = 100 - 100/(1+gain/loss) lies in [0,100] and is 100 when the average loss is 0, Wilder's averages stay >= 0 "
@@ -127,7 +133,7 @@ CHECKS["C08"] = dict(
          "other's entries (engine frame theorem, all 27 kinds). Falsifier: member vs standalone twin fed the same schedule, object/"
          "dict/settings forms, Hexital-level timeframe/fill/lifespan/HA, base candles unaltered.",
     note="The Hexital model is not executed against the code (no correspondence of its own); equality of several members sharing one "
-         "manager with their standalone twins is decided by the falsifier. Known finding K2 (lifespan + own timeframe seeded from trimmed candles). Axioms: none.",
+         "manager with their standalone twins is decided by the falsifier. Known findings K2 (lifespan + own timeframe seeded from trimmed candles) and K3 (Hexital timeframe + fill: own timeframe seeded from filled candles). Axioms: none.",
     technique="Coq proof (engine frame theorem, single-member refinement) + falsifier", design="5/C08")
 CHECKS["C09"] = dict(
     text="Theorems over the reals: no step of the TR, ATR, HLA, OBV, VWAP, EMA recurrence can raise (every divisor non-zero), RSI never "
